@@ -271,7 +271,19 @@ theorem foldl_unimplement_cfg (imp : List MKey) : ∀ s : Ctx, (imp.foldl unimpl
 theorem revertCore_impOk (s : Ctx) (h : s.cfg.recomputeImported = true) : (revertCore s).ImpOk := by
   unfold revertCore fixLatest
   simp only [foldl_unimplement_cfg, h, if_true]
-  exact recomputeImported_impOk _
+  split
+  · unfold Ctx.ImpOk markReverted
+    have : ∀ l : List Mod, ∀ p : Mod → Bool, (l.map fun m => if p m then { m with toCompile := true } else m).map Mod.lview = l.map Mod.lview := by
+      intro l p
+      rw [List.map_map]
+      apply List.map_congr_left
+      intro m _
+      simp only [Function.comp]
+      split <;> rfl
+    dsimp only
+    rw [this]
+    exact recomputeImported_impOk _
+  · exact recomputeImported_impOk _
 
 /-- … and so does the whole function: the recompilation of the previous context does not touch `latest_revision` -/
 theorem revert_impOk (s : Ctx) (h : s.cfg.recomputeImported = true) : (revert s).ImpOk := by
@@ -326,7 +338,8 @@ theorem cfg_constant (s : Ctx) (op : Op) : (run s op).2.cfg = s.cfg ∧ (forward
       cases op <;> dsimp only <;> (try split) <;> exact hf.cfg
     · next e s1 hfw =>
       rw [hfw] at hf
-      have hr : (revert s1).cfg = s1.cfg := by
+      have hr : ∀ s1 : Ctx, (revert s1).cfg = s1.cfg := by
+        intro s1
         have h0 : (revertCore s1).cfg = s1.cfg := by
           unfold revertCore
           obtain ⟨g, _, e⟩ := fixLatest_spec (s1.implementing.foldl unimplement s1) (removeCreated (s1.implementing.foldl unimplement s1))
@@ -338,7 +351,7 @@ theorem cfg_constant (s : Ctx) (op : Op) : (run s op).2.cfg = s.cfg ∧ (forward
         · have := presYT_compileAll (g := (revertCore s1).cfg) (y := ylGen (revertCore s1)) (t := (revertCore s1).ticks)
             (revertCore s1) ⟨rfl, Nat.le_refl _, fun _ _ => rfl⟩
           exact this.cfg.trans h0
-      cases op <;> dsimp only <;> first | exact hf.cfg | exact hr.trans hf.cfg
+      cases op <;> dsimp only <;> first | exact hf.cfg | exact (hr _).trans hf.cfg | exact (hr _).trans ((restoreFeats_cfg _ _ _).trans hf.cfg)
 
 
 end LyModel.Ctx
